@@ -75,7 +75,8 @@ func (m *mon) expand(id string, fs FileSet, base *Outcome, o RunOpts, verbose bo
 		}
 		return
 	}
-	ds := compare(base.APIGraph, back.APIGraph, 40)
+	// a dereferenced document keeps its own component list (foreign components become local ones): not compared
+	ds := compare(withoutEdge(base.APIGraph, "Components"), withoutEdge(back.APIGraph, "Components"), 40)
 	if len(ds) == 0 {
 		r.Count("expand_roundtrip_equal", 1)
 		if verbose {
@@ -109,8 +110,41 @@ func expandClass(d diff) string {
 			fields = append(fields, p)
 		}
 	}
-	if len(fields) > 3 {
-		fields = fields[len(fields)-3:]
+	last := fields[len(fields)-1]
+	if last == "DefaultSet" {
+		last = "Default"
 	}
-	return strings.Join(fields, ".")
+	owner := ""
+	for i := len(fields) - 2; i >= 0; i-- {
+		switch fields[i] {
+		case "Schema", "Item", "Items", "OneOf", "AnyOf", "AllOf", "Properties":
+			owner = "Schema"
+		case "Content", "Media":
+			owner = "MediaType"
+		case "Parameters", "Headers":
+			owner = "Parameter"
+		case "Security":
+			owner = "Security"
+		case "Responses", "StatusCode", "Pattern", "Default":
+			owner = "Response"
+		case "RequestBody":
+			owner = "RequestBody"
+		case "Operations":
+			owner = "Operation"
+		}
+		if owner != "" {
+			break
+		}
+	}
+	return owner + "." + last
+}
+
+func withoutEdge(n *node, name string) *node {
+	c := &node{label: n.label}
+	for _, e := range n.kids {
+		if e.name != name {
+			c.kids = append(c.kids, e)
+		}
+	}
+	return c
 }
